@@ -827,6 +827,21 @@ class Paths:
                             return None
                         out += [(conj + f2, e2, some(r2)) for f2, e2, r2 in res]
             return out
+        if name == "fold" and len(args) == 3 and "Iterator" in path and (is_closure(raw(2)) or is_fnitem(raw(2))):
+            # fold over an array literal with a pure, single-path step: the nested applications of the step
+            hit = _array_iter_base(raw(0))
+            if hit is not None and len(hit[1][2]) <= 8:
+                _, arr, by_ref = hit
+                acc = A(1)
+                okf = True
+                for el in arr[2]:
+                    cs = self._apply_callable(raw(2), [acc, ("ref", el) if by_ref else el], depth)
+                    if not cs or len(cs) != 1 or cs[0][0] or cs[0][1]:
+                        okf = False
+                        break
+                    acc = cs[0][2]
+                if okf:
+                    return [([], [], acc)]
         if self.loops == "unroll" and name == "next" and len(args) == 1 and "Iterator" in path:
             hit = _array_iter_base(raw(0))
             if hit is None:
